@@ -46,6 +46,10 @@ type Case struct {
 	Body    string `json:"body"`   // JSON text of the body value
 	RawBody string `json:"raw_body,omitempty"`
 	CT      string `json:"ct"`                 // response Content-Type
+	// DeclCT: the key under which the content is declared ("" = application/json); AltCT adds a second
+	// entry "application/json" whose schema nothing satisfies, so a wrong selection is visible
+	DeclCT string `json:"decl_ct,omitempty"`
+	AltCT  bool   `json:"alt_ct,omitempty"`
 	Opts    int    `json:"opts"`               // 1 IncludeResponseStatus, 2 ExcludeResponseBody, 4 ExcludeWriteOnlyValidations, 8 MultiError
 	PreOpts int    `json:"pre_opts,omitempty"` // > 0: option bits of a response validated first against the same document
 }
@@ -125,7 +129,7 @@ func check(c Case) (o h.Outcome) {
 		}
 		r := M{"description": "d", "headers": hs}
 		if schema != nil {
-			r["content"] = M{"application/json": M{"schema": schema}}
+			r["content"] = declaredContent(c, schema)
 		}
 		responses[k] = r
 	}
@@ -228,6 +232,54 @@ func check(c Case) (o h.Outcome) {
 	return
 }
 
+func declKey(c Case) string {
+	if c.DeclCT == "" {
+		return "application/json"
+	}
+	return c.DeclCT
+}
+
+func declaredContent(c Case, schema M) M {
+	ct := M{declKey(c): M{"schema": schema}}
+	if c.AltCT && declKey(c) != "application/json" {
+		ct["application/json"] = M{"schema": M{"not": M{}}}
+	}
+	return ct
+}
+
+// selectContent is the documented precedence: the header value in full, then without its parameters,
+// then type/*, then */*. It returns the selected key ("" = undeclared).
+func selectContent(content M, ct string) string {
+	has := func(k string) bool { _, ok := content[k]; return ok }
+	if ct == "" {
+		if has("*/*") {
+			return "*/*"
+		}
+		return ""
+	}
+	if has(ct) {
+		return ct
+	}
+	base := ct
+	if i := strings.IndexByte(base, ';'); i >= 0 {
+		base = base[:i]
+	}
+	if has(base) {
+		return base
+	}
+	i := strings.IndexByte(base, '/')
+	if i < 0 {
+		return ""
+	}
+	if has(base[:i] + "/*") {
+		return base[:i] + "/*"
+	}
+	if has("*/*") {
+		return "*/*"
+	}
+	return ""
+}
+
 func classOfKey(k string) string {
 	switch {
 	case k == "":
@@ -281,12 +333,20 @@ func model(c Case, schema M, hv any) (bool, string, bool) {
 	if schema == nil {
 		return true, "no-content-declared", false
 	}
+	selCT := selectContent(declaredContent(c, schema), c.CT)
+	if selCT == "" {
+		return false, "undeclared-content-type", false
+	}
 	base := c.CT
 	if i := strings.IndexByte(base, ';'); i >= 0 {
 		base = base[:i]
 	}
-	if base != "application/json" {
-		return false, "undeclared-content-type", false
+	if strings.TrimSpace(base) != "application/json" {
+		// selected through a wildcard: how such a body is decoded is not part of the statement
+		return false, "", true
+	}
+	if selCT != declKey(c) {
+		return false, "body-schema:alt-entry", false
 	}
 	if c.RawBody != "" {
 		return false, "undecodable-body", false
@@ -478,7 +538,11 @@ func gen(t *rapid.T) Case {
 			v := schemagen.GenValue(s, depth+1).Draw(t, "value")
 			c.Schema, c.Body = jv.Canon(s), jv.Canon(v)
 		}
-		c.CT = rapid.SampledFrom([]string{"application/json", "application/json", "application/json; charset=utf-8", "text/plain", "", "application/xml"}).Draw(t, "ct")
+		c.CT = rapid.SampledFrom([]string{"application/json", "application/json", "application/json; charset=utf-8", "text/plain", "", "application/xml", "application/json; version=2", "application/json;version=2"}).Draw(t, "ct")
+		if rapid.IntRange(0, 2).Draw(t, "declct") == 0 {
+			c.DeclCT = rapid.SampledFrom([]string{"application/json; version=2", "application/json; charset=utf-8", "application/*", "*/*"}).Draw(t, "declctkey")
+			c.AltCT = rapid.Bool().Draw(t, "altct")
+		}
 		if rapid.IntRange(0, 15).Draw(t, "rawbody") == 0 {
 			c.RawBody = rapid.SampledFrom([]string{"{", "not json", "[1,"}).Draw(t, "raw")
 		}
